@@ -13,3 +13,11 @@ Example tie_post :
 Proof. vm_compute; reflexivity. Qed.
 Example tie_errchan : pool_errchan_capacity = "numWorkers".
 Proof. vm_compute; reflexivity. Qed.
+(* merger: the error channel has one slot per possible sender (one differ per branch +
+   mergeTables + the collector), nobody receives before Error() *)
+Example tie_merge_errchan :
+  match merge_errchan_extra, merge_errchan_extra_senders with
+  | Some k, Some n => N.leb n k && N.eqb n 2
+  | _, _ => false
+  end = true.
+Proof. vm_compute; reflexivity. Qed.
